@@ -3,6 +3,8 @@ use crate::message::{FrameBatch, Msg};
 use crate::socket::connection_iface::ISocketConnection;
 use crate::socket::core::CoreState;
 
+use futures::FutureExt;
+
 use std::collections::HashSet;
 use std::sync::Arc;
 
@@ -42,6 +44,14 @@ impl Distributor {
     peers_guard.iter().cloned().collect() // Clone URIs into a new Vec
   }
 
+  /// A PUB socket does not wait for a subscriber whose queue is full: the message is dropped for
+  /// that subscriber and the publisher carries on. Only an explicitly configured, finite SNDTIMEO
+  /// makes it wait (at most that long) for room; the default SNDTIMEO of -1 does not mean "block
+  /// the publisher until the slowest subscriber has caught up".
+  fn waits_for_full_peers(core_state_accessor: &parking_lot::RwLock<CoreState>) -> bool {
+    matches!(core_state_accessor.read().options.sndtimeo, Some(d) if !d.is_zero())
+  }
+
   /// Sends a message to all currently registered peer URIs.
   /// Looks up `ISocketConnection` from `CoreState` for each URI.
   /// Errors are collected, but sending continues to other peers.
@@ -63,6 +73,7 @@ impl Distributor {
     }
 
     let mut failed_uris = Vec::new(); // Store (URI, Error) for failures
+    let wait_for_full_peers = Self::waits_for_full_peers(core_state_accessor);
 
     // We need to iterate and await sends. To avoid holding core_state_accessor lock across awaits,
     // collect ISocketConnection interfaces first, or re-fetch per send.
@@ -82,7 +93,17 @@ impl Distributor {
       if let Some(conn_iface) = conn_iface_opt {
         let msg_clone = msg.clone(); // Clone message for each send
                                      // ISocketConnection.send_message() handles SNDTIMEO internally
-        match conn_iface.send_message(msg_clone).await {
+        let send_result = if wait_for_full_peers {
+          // ISocketConnection.send_message() applies the (finite) SNDTIMEO internally
+          conn_iface.send_message(msg_clone).await
+        } else {
+          // Polled exactly once: if the peer's queue is full the message is dropped for this peer.
+          match conn_iface.send_message(msg_clone).now_or_never() {
+            Some(result) => result,
+            None => Err(ZmqError::ResourceLimitReached),
+          }
+        };
+        match send_result {
           Ok(()) => {
             tracing::trace!(handle = core_handle, uri = %uri_to_send, "Distributor: send_message successful for URI.");
           }
@@ -141,6 +162,7 @@ impl Distributor {
     }
 
     let mut failed_uris = Vec::new();
+    let wait_for_full_peers = Self::waits_for_full_peers(core_state_accessor);
 
     for uri_to_send in uris_to_send_to {
       let conn_iface_opt: Option<Arc<dyn ISocketConnection>> = {
@@ -154,7 +176,15 @@ impl Distributor {
       if let Some(conn_iface) = conn_iface_opt {
         // Clone the FrameBatch for each peer
         let frames_for_this_peer = zmtp_frames.clone();
-        match conn_iface.send_multipart(frames_for_this_peer).await {
+        let send_result = if wait_for_full_peers {
+          conn_iface.send_multipart(frames_for_this_peer).await
+        } else {
+          match conn_iface.send_multipart(frames_for_this_peer).now_or_never() {
+            Some(result) => result,
+            None => Err(ZmqError::ResourceLimitReached),
+          }
+        };
+        match send_result {
           Ok(()) => {
             tracing::trace!(handle = core_handle, uri = %uri_to_send, "Distributor: send_multipart successful for URI.");
           }
